@@ -144,6 +144,35 @@ CLAIMED.update({
             "DESIGN.md §3 C17", "ownership/immutability and atomic-only-access rules over go/ssa (field-write ownership, value-flow of slot addresses, operand identity of the compare-and-swap)"),
 })
 
+CLAIMED.update({
+    "C04": ("other",
+            "Decides the completion protocol and the root-PV clause: bestmove is sent only by the completion function after winning "
+            "CompareAndSwap(true,false) on the active flag, which is armed only in the go arm once a completion is certain (at most one bestmove "
+            "per go); in every mode some party completes - the forwarder with the last PV unless infinite, the stop arm on the success path of "
+            "Engine.Halt with the halted PV (plus a repository-wide belief rule: a value returned with an error is never used only where the "
+            "error is non-nil); a root alpha-beta search returns an empty PV only through the mate/stalemate verdict (the drawn-game and "
+            "table-hit exits are restricted to non-root nodes) and the public Search hands the PV through; Halt waits for the first completed "
+            "iteration, whose signal follows publication of the PV; the null move is announced iff the PV is empty; each bundled engine is built "
+            "on a covered Search. Legality of the announced move rests on C01/C03; timing is not decided.",
+            "DESIGN.md §3 C04", "CFG dominance rules over the driver's command loop (guards of sends/arming/completion), error-side belief rule, path enumeration of the root search"),
+    "C10": ("other",
+            "Decides: only the position arm changes the engine's game; the remembered command line is written only there (cleared by ucinewgame) "
+            "and only downstream of the move loop, while every failing Reset/Move either leaves the loop or forgets it; a fresh set-up resets (to "
+            "the six FEN fields or the initial position) before any move and plays only the tokens after 'moves'; no token of strings.Split "
+            "reaches Engine.Move without passing an empty-token skip; Engine.Reset halts, decodes and replaces board, table and noise on every "
+            "successful path, Engine.Move halts before changing the game. Equality of the replayed suffix with the intended list for arbitrary "
+            "strings is not decided.",
+            "DESIGN.md §3 C10", "ownership (who-may-call / who-writes) and dominance rules over the position arm of the command loop"),
+    "C16": ("other",
+            "Schedules are not enumerated; decided is the discipline that excludes the bad interleavings, or the exact construct that permits "
+            "them: every exit of the command loop halts the search and clears the flag before the output channel closes; the output channel's "
+            "senders vs. its closer (unjoined forwarder - known finding F11); what ties a completion to its search (one shared boolean - known "
+            "finding F12); isready is always answered and which commands can terminate the loop (seven fail-stop returns - known finding F13); "
+            "engine state only under the engine mutex, driver state confined to the loop goroutine, closures capture only d/ctx/out/infinite; "
+            "the noise generator shared by overlapping searches is mutex-guarded.",
+            "DESIGN.md §3 C16", "ownership/lock-discipline/close-owner rules over go/ssa with goroutine-closure capture sets"),
+})
+
 NOT_APPLICABLE = {
     "C11": "Transparency of the transposition table is a numeric equality between two complete searches over all positions x depths x table sizes x search sequences; no sound static abstraction in reach bounds it. Its shape-visible clauses are decided under C12 (no store after cancellation, exact bound only after a full loop), C04 (root exits) and C17 (slot discipline).",
 }
